@@ -622,10 +622,34 @@ Proof.
   { destruct (a_phase a); try reflexivity; rewrite Hc in Hph; try discriminate; destruct Hph; discriminate. }
   set (k := qcount s2) in *.
   set (sq := {| rd := rd s2; comstate := comstate s2; qcount := S k; rcpts := rcpts s2; mailfrom := mailfrom s2 |}) in H.
-  destruct (data_loop f o _ (rd sq) _) as [de r'] eqn:Edl.
   (* the abstract state after the boundary *)
   set (ab := {| a_phase := PHelo; a_txn := None; a_stored := 0; a_auth := a_auth a; a_esmtp := a_esmtp a; a_cert := a_cert a |}).
   assert (HI2 : Irel (a_cert a) (relkey s2)) by (rewrite G8; exact HI).
+  (* queue_init() failed: 451, nothing else happened *)
+  destruct (qq_nostart (o_qq o k)) eqn:Ens.
+  { inversion H; subst evs h s'. exists a. split; [reflexivity|]. split; [exact HI2|]. split; [reflexivity|].
+    unfold sq. cbn [comstate mailfrom rcpts rcptcount goodrcpt]. rewrite G1, G2, G3, G4, G5. exact HR. }
+  assert (HqN : queue_step o (Note (NData k)) QIdle = Some (QData k)) by (cbn [queue_step]; rewrite Ens; reflexivity).
+  assert (Hbd0 : trace_step o (Note NBoundary) a = Some ab).
+  { cbn [trace_step]. destruct (a_phase a); try reflexivity; rewrite Hc in Hph; try discriminate; destruct Hph; discriminate. }
+  assert (Hfree0 : forall r2, let sf := freedata (set_rd sq r2) in
+            Irel (a_cert a) (relkey sf) /\ comstate sf = helo_state (esmtp sf)
+            /\ Rc (comstate sf) (mailfrom sf) (rcpts sf) (rcptcount sf) (goodrcpt sf) ab).
+  { intros r2 sf. unfold sf, freedata, set_rd, sq.
+    split; [exact (Irel_freedata _ (set_rd sq r2) HI2)|].
+    cbn [comstate mailfrom rcpts rcptcount goodrcpt relayclient esmtp].
+    rewrite G1, Hc. split; [reflexivity|].
+    unfold Rc, ab. cbn [a_stored a_phase a_txn]. unfold helo_state.
+    repeat split; auto. destruct (esmtp s2); auto. }
+  (* the child died between queue_init() and the Received: header *)
+  destruct (qq_die_hdr (o_qq o k)) eqn:Edh.
+  { destruct (drain_break f (rd sq) s_data_line) as [[alive rerr] r2]. destruct (Hfree0 r2) as (HIf & Hcf & HRf).
+    destruct alive; cbn [negb] in H; inversion H; subst evs h s'; clear H.
+    + exists ab. split; [cbn [trace_run trace_step]; rewrite Htxn, Ers, Hphr; reflexivity|].
+      split; [exact HIf|]. split; [cbn [queue_run]; rewrite HqN; reflexivity|exact HRf].
+    + exists a. split; [cbn [trace_run trace_step]; rewrite Htxn, Ers; reflexivity|]. split; [exact HI2|].
+      cbn [queue_run]. rewrite HqN. simpl. discriminate. }
+  destruct (data_loop f o _ (rd sq) _) as [de r'] eqn:Edl.
   assert (Htr1 : trace_run o [Note (NData k); Reply 354] a = Some a).
   { cbn [trace_run trace_step]. rewrite Htxn, Ers. reflexivity. }
   assert (Hbd : trace_step o (Note NBoundary) a = Some ab).
@@ -656,48 +680,50 @@ Proof.
       split. { change (trace_run o ([Note (NData k); Reply 354] ++ [Handoff (envelope (o_liphost o) (mailfrom (set_rd sq r')) (rcpts (set_rd sq r'))) msg; Note NBoundary; Reply 250]) a = Some ab).
                rewrite trace_run_app, Htr1. cbn [trace_run]. rewrite Hho, Hbd. reflexivity. }
       split; [exact HIf|].
-      split. { simpl. rewrite Eqq. reflexivity. }
+      split. { cbn [queue_run]. rewrite HqN. cbn [queue_run queue_step N.eqb Pos.eqb]. rewrite Eqq. reflexivity. }
       rewrite <- Hcf. exact HRf.
     + destruct (Nat.leb QQ_PERM_LO code && Nat.leb code QQ_PERM_HI);
         inversion H; subst evs h s'; clear H; exists ab;
         (split; [cbn [trace_run trace_step]; rewrite Htxn, Ers, Hphr; reflexivity|]);
-        (split; [exact HIf|]); (split; [reflexivity|exact HRf]).
+        (split; [exact HIf|]); (split; [cbn [queue_run]; rewrite HqN; reflexivity|exact HRf]).
     + inversion H; subst evs h s'; clear H; exists ab;
         (split; [cbn [trace_run trace_step]; rewrite Htxn, Ers, Hphr; reflexivity|]);
-        (split; [exact HIf|]); (split; [reflexivity|exact HRf]).
+        (split; [exact HIf|]); (split; [cbn [queue_run]; rewrite HqN; reflexivity|exact HRf]).
     + inversion H; subst evs h s'; clear H; exists ab;
         (split; [cbn [trace_run trace_step]; rewrite Htxn, Ers, Hphr; reflexivity|]);
-        (split; [exact HIf|]); (split; [reflexivity|exact HRf]).
+        (split; [exact HIf|]); (split; [cbn [queue_run]; rewrite HqN; reflexivity|exact HRf]).
     + inversion H; subst evs h s'; clear H; exists ab;
         (split; [cbn [trace_run trace_step]; rewrite Htxn, Ers, Hphr; reflexivity|]);
-        (split; [exact HIf|]); (split; [reflexivity|exact HRf]).
+        (split; [exact HIf|]); (split; [cbn [queue_run]; rewrite HqN; reflexivity|exact HRf]).
+    + simpl in Ens. discriminate.
+    + simpl in Edh. discriminate.
   - destruct (drain f r' l) as [alive r2]. destruct (Hfree r2) as (HIf & Hcf & HRf).
     destruct alive; inversion H; subst evs h s'; clear H.
     + exists ab. split; [cbn [trace_run trace_step]; rewrite Htxn, Ers, Hphr; reflexivity|].
-      split; [exact HIf|]. split; [reflexivity|exact HRf].
+      split; [exact HIf|]. split; [cbn [queue_run]; rewrite HqN; reflexivity|exact HRf].
     + exists a. split; [exact Htr1|]. split; [exact HI2|].
-      simpl. discriminate.
+      cbn [queue_run]. rewrite HqN. simpl. discriminate.
   - destruct (drain f r' l) as [alive r2]. destruct (Hfree r2) as (HIf & Hcf & HRf).
     destruct alive; inversion H; subst evs h s'; clear H.
     + exists ab. split; [cbn [trace_run trace_step]; rewrite Htxn, Ers, Hphr; reflexivity|].
-      split; [exact HIf|]. split; [reflexivity|exact HRf].
+      split; [exact HIf|]. split; [cbn [queue_run]; rewrite HqN; reflexivity|exact HRf].
     + exists a. split; [exact Htr1|]. split; [exact HI2|].
-      simpl. discriminate.
+      cbn [queue_run]. rewrite HqN. simpl. discriminate.
   - destruct (drain f r' l) as [alive r2]. destruct (Hfree r2) as (HIf & Hcf & HRf).
     destruct alive; cbn [negb] in H.
     + destruct big; inversion H; subst evs h s'; clear H; exists ab;
         (split; [cbn [trace_run trace_step]; rewrite Htxn, Ers, Hphr; reflexivity|]);
-        (split; [exact HIf|]); (split; [reflexivity|exact HRf]).
+        (split; [exact HIf|]); (split; [cbn [queue_run]; rewrite HqN; reflexivity|exact HRf]).
     + inversion H; subst evs h s'; clear H.
       exists a. split; [exact Htr1|]. split; [exact HI2|].
-      simpl. discriminate.
+      cbn [queue_run]. rewrite HqN. simpl. discriminate.
   - (* a write to qmail-queue failed *)
     destruct (drain_break f r' lw) as [[alive rerr] r2]. destruct (Hfree r2) as (HIf & Hcf & HRf).
     destruct alive; cbn [negb] in H; inversion H; subst evs h s'; clear H.
     + exists ab. split; [cbn [trace_run trace_step]; rewrite Htxn, Ers, Hphr; reflexivity|].
-      split; [exact HIf|]. split; [reflexivity|exact HRf].
+      split; [exact HIf|]. split; [cbn [queue_run]; rewrite HqN; reflexivity|exact HRf].
     + exists a. split; [exact Htr1|]. split; [exact HI2|].
-      simpl. discriminate.
+      cbn [queue_run]. rewrite HqN. simpl. discriminate.
   - (* refused by a header check or as a Delivered-To: loop *)
     destruct (drain f r' lr) as [alive r2]. destruct (Hfree r2) as (HIf & Hcf & HRf).
     destruct alive; inversion H; subst evs h s'; clear H.
@@ -708,16 +734,16 @@ Proof.
         clear -Edl. unfold data_loop in Edl. destruct (dread (rd sq) []) as [[d0|l0] r1] eqn:Ed.
         - inversion Edl; subst. unfold dread in Ed. destruct (net_read (rd sq)) as [it rr]. destruct it; inversion Ed.
         - apply hdr_loop_reject in Edl. destruct Edl as [->| ->]; reflexivity. }
-      split; [simpl; rewrite Hc400; reflexivity|exact HRf].
+      split; [cbn [queue_run]; rewrite HqN; simpl; rewrite Hc400; reflexivity|exact HRf].
     + exists a. split; [exact Htr1|]. split; [exact HI2|].
-      simpl. discriminate.
+      cbn [queue_run]. rewrite HqN. simpl. discriminate.
   - inversion H; subst evs h s'; clear H.
     exists a. split; [exact Htr1|]. split; [exact HI2|].
-    cbn [queue_run queue_step N.eqb]. discriminate.
+    cbn [queue_run]. rewrite HqN. cbn [queue_run queue_step N.eqb]. discriminate.
   - inversion H; subst evs h s'; clear H.
     exists a. split; [cbn [trace_run trace_step]; rewrite Htxn, Ers; reflexivity|].
     split; [exact HI2|].
-    cbn [queue_run queue_step N.eqb]. discriminate.
+    cbn [queue_run]. rewrite HqN. cbn [queue_run queue_step N.eqb]. discriminate.
 Qed.
 
 (** ---------- the dispatcher ---------- *)
@@ -1048,6 +1074,29 @@ Proof.
   rewrite queue_run_app in Hq. destruct (queue_run o pre QIdle) as [q|] eqn:Ep; [|congruence].
   cbn [queue_run queue_step] in Hq. destruct q; try congruence.
   destruct (o_qq o k) eqn:Ek; try congruence. exists k. auto.
+Qed.
+
+(** DATA is accepted (354) only for an invocation of qmail-queue that could be started: with pipe()/fork() failing, or the
+    child gone when queue_init() looks, there is no 354 *)
+Theorem data_needs_queue_start chunks pre k post :
+  run_session o chunks = pre ++ Note (NData k) :: post -> o_qq o k <> QQ_nostart.
+Proof.
+  intros E. destruct (session_trace_ok chunks) as [_ Hq]. unfold queue_ok in Hq. rewrite E in Hq.
+  rewrite queue_run_app in Hq. destruct (queue_run o pre QIdle) as [q|] eqn:Ep; [|congruence].
+  cbn [queue_run queue_step] in Hq. intros Hn. rewrite Hn in Hq. cbn [qq_nostart] in Hq.
+  destruct q; congruence.
+Qed.
+
+(** ... and what happens instead: smtp_data, arrived at queue_init() with an invocation that cannot be started, answers 451 and
+    leaves everything as it was (sender, recipients, command state: the client may send DATA again, which is a new invocation) *)
+Theorem queue_not_started f s s2 evs h s' :
+  (goodrcpt s =? 0) = false -> sync_pipelining f s = (None, s2) -> o_qq o (qcount s2) = QQ_nostart ->
+  h_data f o s = (evs, h, s') ->
+  evs = [Reply 451] /\ h = HEDONE /\ mailfrom s' = mailfrom s2 /\ rcpts s' = rcpts s2 /\ rcptcount s' = rcptcount s2
+  /\ goodrcpt s' = goodrcpt s2 /\ comstate s' = comstate s2 /\ rd s' = rd s2 /\ qcount s' = S (qcount s2).
+Proof.
+  intros Hg Hsp Hq H. unfold h_data in H. rewrite Hg, Hsp, Hq in H. cbn [qq_nostart] in H.
+  inversion H; subst. repeat split.
 Qed.
 
 (** never more than MAXRCPT recipients are stored: a recipient is accepted only below the limit *)
